@@ -17,8 +17,8 @@ pub const SPEC: PropSpec = PropSpec {
 	level: "exploration",
 	rule: "case = random schema S embedded as record{pre, x:S, sentinel, tail} / record{arr:array<S>, m:map<S>, sentinel} / record{u:[null,S], sentinel}; a conforming value is encoded by the reference with a random block layout (negative-count blocks carry byte sizes); a random set of sub-trees (single nodes, whole arrays/maps, S itself, the union payload read as unit variant) is ignored through serde's IgnoredAny; the result must equal the expected value with those sub-trees erased, and exactly the encoding must be consumed (marker bytes follow); slice and chunked reader; distinct by hash(schema shape, bytes, ignore set)",
 	assumptions: &["valid encodings only (a wrong advertised byte size belongs to C03/C04)"],
-	cases: (60_000, 5_000_000),
-	secs: (45, 600),
+	cases: (50_000_000, 4_000_000_000),
+	secs: (30, 600),
 	required: &["skip_ok", "ignored_collection_with_sized_blocks", "unit_variant_payload_skipped", "reader_skip_ok"],
 	run_case,
 	once: None,
